@@ -174,6 +174,30 @@ def check_property_file(prop):
     }
 
 
+def gen_dependencies(files):
+    """the Gen/*.v files (rewritten from the repository source by tools/gen_*.py on every run) that the given property files depend on,
+    transitively, according to coqdep's dependency file"""
+    dep = {}
+    try:
+        for line in open(os.path.join(COQ, '.Makefile.d'), encoding='utf-8'):
+            if '.vo ' not in line.split(':')[0] + ' ' or ':' not in line:
+                continue
+            lhs, rhs = line.split(':', 1)
+            tgt = lhs.split()[0]
+            if tgt.endswith('.vo'):
+                dep[tgt[:-3]] = [x[:-3] for x in rhs.split() if x.endswith('.vo')]
+    except OSError:
+        return []
+    seen, todo = set(), [f[:-2] for f in files]
+    while todo:
+        x = todo.pop()
+        if x in seen:
+            continue
+        seen.add(x)
+        todo += dep.get(x, [])
+    return sorted(x + '.v' for x in seen if x.startswith('Gen/'))
+
+
 def run_coqchk(prop, files):
     """thorough tier: re-check the compiled property files and everything they depend on with the independent checker;
     -o prints the axioms of the whole context"""
@@ -380,7 +404,8 @@ class Ctx:
         proof = self.proof or {'obligations': 0, 'discharged': 0, 'theorems': [], 'axioms': []}
         cov = {
             'obligations': proof['obligations'], 'discharged': proof['discharged'],
-            'checker_cmd': f'cd {COQ} && make (full .vo build) && coqc -Q . CC Properties/{self.prop}.v',
+            'checker_cmd': f'cd {COQ} && make (full .vo build) && coqc -Q . CC ' + ' '.join((self.proof or {}).get('files') or [f'Properties/{self.prop}.v']),
+            'regenerated_files_the_property_depends_on': gen_dependencies((self.proof or {}).get('files') or []),
             'trusted_base': self.trusted,
             'theorems': proof.get('theorems', []),
             'axioms_reported_by_Print_Assumptions': proof.get('axioms', []),
